@@ -1,6 +1,7 @@
 """Decision table of TimeScale::get_position (helpers inlined), shared by C02, C03, C10 and C20."""
 from facts import AnchorLost
 import pse
+import terms
 import intervals
 from intervals import Iv, Env, ival, refine
 from pse import show
@@ -26,11 +27,18 @@ def build(ctx, F=None, adt=TS):
     paths = eng.run(body)
     ctx.count_paths(paths, body)
     a = F.adt(adt)
-    f32s = [f["name"] for f in a["variants"][0]["fields"] if f["ty"] == "f32"]
-    bools = [f["name"] for f in a["variants"][0]["fields"] if f["ty"] == "bool"]
-    reps = [f["name"] for f in a["variants"][0]["fields"] if f["ty"].endswith("::Repeat")]
+    # fields that only cache a function of the configuration (set by the constructor from its arguments, never written
+    # again) are replaced by their defining expression over the configured fields, so that the rules below see what is
+    # computed, wherever it is computed
+    derived = derived_fields(ctx, F, adt)
+    paths = resolve(paths, derived)
+    cached = derived["fields"] if derived else ()
+    f32s = [f["name"] for f in a["variants"][0]["fields"] if f["ty"] == "f32" and f["name"] not in cached]
+    bools = [f["name"] for f in a["variants"][0]["fields"] if f["ty"] == "bool" and f["name"] not in cached]
+    reps = [f["name"] for f in a["variants"][0]["fields"] if f["ty"].endswith("::Repeat") and f["name"] not in cached]
     if len(f32s) != 2 or len(bools) != 1 or len(reps) != 1:
-        raise AnchorLost("TimeScale must have two f32 fields, one bool and one Repeat (has %s)" % a["variants"][0]["fields"])
+        raise AnchorLost("TimeScale must have two f32 fields, one bool and one Repeat besides cached values (has %s)"
+                         % a["variants"][0]["fields"])
     # roles by behaviour: the field subtracted from the time in the not-started test is the delay
     delay = None
     for p in paths:
@@ -80,4 +88,122 @@ def build(ctx, F=None, adt=TS):
         r.label = "%s repeat=%s reverse=%s [%s]" % (r.kind, r.repeat, r.reverse,
                                                   ",".join(str(v) for (_, v, _) in p.conds))
         rows.append(r)
-    return {"rows": rows, "roles": roles, "S": S, "D": D, "body": body, "engine": eng}
+    return {"rows": rows, "roles": roles, "S": S, "D": D, "body": body, "engine": eng, "derived": derived}
+
+
+def resolve(paths, derived):
+    """Rewrite paths with every cached field replaced by its definition.  A definition that depends on a decision of the
+    constructor (`if repeat == Infinite { .. } else { .. }`) multiplies the paths that read the field: one copy per
+    constructor path, carrying that path's decisions (expressed over the configured fields) after its own."""
+    if not derived:
+        return paths
+    import copy
+    out = []
+    for p in paths:
+        mentions = any(pse.contains(t, fld(f)) for f in derived["fields"] for (t, v, s_) in p.conds) or \
+            any(pse.contains(p.ret, fld(f)) for f in derived["fields"])
+        if not mentions:
+            out.append(p)
+            continue
+        for (cconds, vals) in derived["cases"]:
+            m = {fld(k): v for k, v in vals.items()}
+            q = copy.copy(p)
+            # the method's own decisions keep their order (rules read them in program order); the constructor's follow
+            conds = _consistent([(terms.subst(t, m), v, s_) for (t, v, s_) in p.conds] + list(cconds))
+            if conds is None:
+                continue            # the constructor case and the method's own decisions exclude each other
+            q.conds = conds
+            q.ret = terms.subst(p.ret, m)
+            out.append(q)
+    return out
+
+
+def _consistent(conds):
+    """conds with repeated decisions removed, or None when they contradict each other (same discriminant / flag decided
+    differently, or a comparison no float satisfies: `INFINITY < x`)"""
+    out = []
+    allowed = {}
+    flags = {}
+    for (t, v, s_) in conds:
+        if t[0] == "discr":
+            universe = {int(d) for _, d in t[2]}
+            now = {v} if not isinstance(v, tuple) else universe - {int(x) for x in v[1]}
+            before = allowed.get(t, universe)
+            if before <= now:
+                continue            # nothing new
+            allowed[t] = before & now
+            if not allowed[t]:
+                return None
+            out.append((t, v, s_))
+            continue
+        if v in (0, 1):
+            if t in flags:
+                if flags[t] != v:
+                    return None
+                continue
+            flags[t] = v
+            if t[0] == "bin" and t[1] == "Lt" and pse.is_const(t[2]) and isinstance(t[2][2], tuple) and t[2][2][0] == "f" \
+                    and t[2][2][2] == float("inf"):
+                if v == 1:
+                    return None
+                continue            # `INFINITY < x` is false for every x: no information
+        out.append((t, v, s_))
+    return out
+
+
+def derived_fields(ctx, F, adt):
+    """{"fields": [...], "cases": [(decisions over the configured fields, {field: term over the configured fields})]} for
+    the fields of the time scale that its constructor computes from its arguments.  Only accepted when the type is
+    immutable after construction (no function stores to a field) and every other function that yields a value of the
+    type does so through that constructor; otherwise None (and the caller's field census fails closed)."""
+    from rulelib import field_writers
+    a = F.adt(adt)
+    fields = [f["name"] for f in a["variants"][0]["fields"]]
+    ctors = []
+    for b in F.find(impl_self_adt=adt):
+        if b["def_kind"] == "Closure" or b.get("impl_exp"):      # derived impls (Clone) copy field by field
+            continue
+        ps = [q for q in pse.Engine(F, inline=lambda fn, bb: False).run(b) if q.outcome == "return"]
+        if ps and all(q.ret[0] == "agg" and q.ret[2] == adt for q in ps):
+            ctors.append((b, ps))
+    if len(ctors) != 1:
+        return None
+    b, ps = ctors[0]
+    ctx.count_paths(ps, b)
+    # configured fields: those that hold the same argument on every path of the constructor
+    direct = None
+    for q in ps:
+        d = {f: v for f, v in dict(q.ret[4]).items() if v[0] == "param"}
+        direct = d if direct is None else {f: v for f, v in direct.items() if d.get(f) == v}
+    if len(direct) == len(fields):
+        return None
+    fw = field_writers(F, adt)
+    derived_impls = {x["path"] for x in F.find(impl_self_adt=adt) if x.get("impl_exp")}
+    for fns in fw.values():
+        for path, kinds in fns.items():
+            if path in derived_impls:
+                continue
+            if path != b["path"] or any(k != "ctor" for k in kinds):
+                return None
+    inv = {v: fld(f) for f, v in direct.items()}
+    if len(inv) != len(direct):
+        return None
+    def has_param(t):
+        return any(x[0] == "param" for x in pse.subterms(terms.subst(t, {SELF: ("self",)})))
+    cases = []
+    for q in ps:
+        vals = {}
+        for f, v in dict(q.ret[4]).items():
+            if f in direct:
+                continue
+            t = terms.subst(v, inv)
+            if has_param(t):
+                return None         # depends on an argument that is not stored: not a function of the configuration
+            vals[f] = t
+        conds = [(terms.subst(t, inv), v, s_) for (t, v, s_) in q.conds]
+        if any(has_param(t) for (t, v, s_) in conds):
+            return None
+        cases.append((conds, vals))
+    cached = [f for f in fields if f not in direct]
+    ctx.notes.append("cached fields of %s resolved to their definitions in %s: %s" % (adt.split("::")[-1], b["path"], cached))
+    return {"fields": cached, "cases": cases}
